@@ -345,6 +345,11 @@ Violated(c) ==
       big == BigCall(c)
       fw == FloatCall(c) /\ ok /\ un
       vfh == IF FloatCall(c) /\ ~FClaimsHonest(c) THEN {"HARNESS"} ELSE {}
+      \* integer-domain calls: the generator's implicit claim that every meeting point of the operands' edges is a lattice
+      \* point. If it is false the call is outside the decided domain: a tool error, never a verdict about the library.
+      baseE == UNION {Segs(EdgeRecs(val[n])) : n \in Bases(c)}
+      vdom == IF ~big /\ ok /\ un /\ Laws \cap {"C01", "C02", "C04", "C05", "C06", "C08", "C09", "C11"} # {} /\ ~AllIntegral(baseE)
+              THEN {"HARNESS"} ELSE {}
       c04 == ~big /\ C04_RingsFromInputs(c)
       v04 == IF "C04" \in Laws /\ ((un /\ ok /\ ~big /\ ~c04) \/ (fw /\ ~C04_F(c))) THEN {"C04"} ELSE {}
       \* Region laws: when C04 holds the result's edges lie on input edges and the arrangement of
@@ -363,13 +368,17 @@ Violated(c) ==
                                       \/ (fw /\ Depth1(c) /\ ~C01_WitnessF(c))) THEN {"C01"} ELSE {}
       v11 == IF "C11" \in Laws /\ ((geo /\ ~Depth1(c) /\ ~RegionOK(c, extra)) \/ (fw /\ ~Depth1(c) /\ ~C01_WitnessF(c))) THEN {"C11"} ELSE {}
       v02 == IF "C02" \in Laws /\ ((geo /\ ~C02_PolygonSetValid(c)) \/ (fw /\ ~C02_WitnessF(c))) THEN {"C02"} ELSE {}
+      \* C06 on float operands: self-operations and swapped operands, judged at witness points (and A - A, A xor A literally empty)
+      swapped == \E k \in 1..Len(log) : log[k].op = c.op /\ log[k].x = c.y /\ log[k].y = c.x /\ log[k].F = c.F
+      v06f == IF "C06" \in Laws /\ fw /\ (c.x = c.y \/ swapped)
+                 /\ (~C01_WitnessF(c) \/ (c.x = c.y /\ c.op \in {"diff", "xor"} /\ c.smp # <<>>)) THEN {"C06"} ELSE {}
       v06 == IF "C06" \in Laws /\ ok /\ un /\ ~OpaqueCall(c) /\ ~((big \/ (C06_Self(c) /\ C06_Empty(c) /\ (~(c04 \/ AllIntegral(allE)) \/ C06_TouchingBoxes(c, extra)))) /\ C06_DisjointBoxes(c) /\ pair(C06_Commutes)) THEN {"C06"} ELSE {}
       v07 == IF "C07" \in Laws /\ ~OpaqueCall(c) /\ ~pair(C07_RepresentationInvariant) THEN {"C07"} ELSE {}
       v08 == IF "C08" \in Laws /\ ~big /\ ~pair(C08_TransformCommutes) THEN {"C08"} ELSE {}
       v09 == IF "C09" \in Laws /\ ~big /\ ~pair(C09_FarPartLocal) THEN {"C09"} ELSE {}
       v10 == IF "C10" \in Laws /\ ~OpaqueCall(c) /\ ~pair(C10_F32AgreesF64) THEN {"C10"} ELSE {}
       v05 == IF "C05" \in Laws /\ ~big /\ ~C05_Partition(c, lg) THEN {"C05"} ELSE {}
-  IN vfh \cup und \cup v03 \cup v12 \cup v04 \cup v01 \cup v11 \cup v02 \cup v06 \cup v07 \cup v08 \cup v09 \cup v10 \cup v05
+  IN vfh \cup vdom \cup und \cup v03 \cup v12 \cup v04 \cup v01 \cup v11 \cup v02 \cup v06 \cup v06f \cup v07 \cup v08 \cup v09 \cup v10 \cup v05
 
 \* ------------------------------------------------------------------- actions
 \* is the generator's claim about the new operand true? (a false claim is a harness error)
